@@ -158,7 +158,7 @@ func spaces(tier string) []*gridx.Space {
 	}
 
 	// GR4J
-	gp, gn := gridx.Grid("GR4J", nil, []gridx.Axis{A("X1", 50, 350, 1200), A("X2", -5, 0, 3), A("X3", 5, 90, 400), A("X4", 0.5, 0.7, 1, 1.3, 2, 2.5, 3, 4)})
+	gp, gn := gridx.Grid("GR4J", nil, []gridx.Axis{A("X1", 50, 350, 1200), A("X2", -10, -5, 0, 3), A("X3", 2, 5, 90, 400), A("X4", 0.5, 0.7, 1, 1.3, 2, 2.5, 3, 4)}) // X3 < |X2|: the exchange can exceed the routing store
 	gr4j := &acct{model: "GR4J", runoff: 0, et: -1, compA: -1, compB: -1,
 		importPerStep: func(p map[string]float64) float64 { return 2 * math.Max(0, p["X2"]) },
 		storage: func(p map[string]float64, st []float64) (float64, [][3]interface{}) {
